@@ -46,14 +46,17 @@ ChooseWrite ==
           pend' = [e |-> "wr", win |-> win, path |-> tg.path, x |-> x]
 ChooseCopy == "cp" \in Acts /\ \E dst \in {1, 2} : pend' = [e |-> "cp", dst |-> dst]
 ChooseEq == "eq" \in Acts /\ pend' = [e |-> "eq"]
+\* Equals against every single-bit variant of window 2 (only for short windows: 8 * length evaluations)
+ChooseEqScan == "eqs" \in Acts /\ wins[2].l <= 10 /\ pend' = [e |-> "eqs"]
 ChooseText == "tx" \in Acts /\ \E k \in 1..File.nopts : pend' = [e |-> "text", opt |-> k]
-Choose == pend = None /\ (ChooseWrite \/ ChooseCopy \/ ChooseEq \/ ChooseText) /\ UNCHANGED <<mem, wins, hist, done>>
+Choose == pend = None /\ (ChooseWrite \/ ChooseCopy \/ ChooseEq \/ ChooseEqScan \/ ChooseText) /\ UNCHANGED <<mem, wins, hist, done>>
 
 Apply ==
   /\ pend # None
   /\ mem' = CASE pend.e = "wr" -> ReplaceWindow(mem, wins[pend.win], WriteResult(T, Ps, Window(mem, wins[pend.win]), pend.path, pend.x).buf)
                [] pend.e = "cp" -> CopyResult(T, Ps, mem, wins[pend.dst], wins[3 - pend.dst])
                [] pend.e = "eq" -> mem
+               [] pend.e = "eqs" -> mem
                [] pend.e = "text" -> mem
   /\ hist' = Append(hist, pend)
   /\ pend' = None
